@@ -121,9 +121,9 @@ def packets5():
 
 # ------------------------------------------------------------------ cases
 CFG_DEFAULT = dict(kind=0, answer=0, code=0, max_send=16, max_qos=1, max_receive=16, alias=32, max_size=0,
-                   ov_send=0, ov_ka=0, ov_size=0, ov_rm=0, ov_qos=0, ov_alias=0, ov_ska=0)
+                   ov_send=0, ov_ka=0, ov_size=0, ov_rm=0, ov_qos=0, ov_alias=0, ov_ska=0, pre=0)
 CFG_ORDER = ["kind", "answer", "code", "max_send", "max_qos", "max_receive", "alias", "max_size", "ov_send", "ov_ka",
-             "ov_size", "ov_rm", "ov_qos", "ov_alias", "ov_ska"]
+             "ov_size", "ov_rm", "ov_qos", "ov_alias", "ov_ska", "pre"]
 
 
 def nums(b):
@@ -393,7 +393,22 @@ def suite_random(rng, n=1500):
     return out
 
 
+def suite_prebuffered(rng):
+    """the first k bytes are already in the read buffer when the server is handed the connection (a TLS / proxy
+    stage in front): every k for the plain CONNECTs on every kind of server, plus refused first packets"""
+    out = []
+    firsts = [connect3(), connect5(), connect3(cid=b"client-0001", ka=7, flags=0xc2, user=b"u", pw=b"p") + PING,
+              connect5(cid=b"id", ka=9, receive_max=3, max_packet=200) + publish5(qos=1, pid=7)]
+    bad = [connect3(level=6), connect5(level=3), connect3(name=b"MQTt"), PING, publish3(qos=1)]
+    for f in firsts + bad:
+        for kind in (0, 3, 5):
+            for a in list(range(1, min(16, len(f)))) + [len(f)]:
+                out.append(case(f, (a,) if a < len(f) else (), ["credit", PING], kind=kind, pre=1))
+    return out
+
+
 SUITES = {
+    "prebuffered": suite_prebuffered,
     "first": suite_first_packets,
     "connect": suite_connect_variants,
     "cuts": suite_cuts,
